@@ -411,6 +411,12 @@ def run_check(prop, modname, tier, seed):
             print('INCONCLUSIVE: counterexample %s did not reproduce on the real OS (replay=%s): %s'
                   % (list(k), p, json.dumps(fl, default=str)[:600]))
         code = 3
+    incon = {k: v for k, v in total.notes.items() if k.startswith('inconclusive-path')}
+    if incon:
+        for k, v in sorted(incon.items())[:5]:
+            print('INCONCLUSIVE: %d path(s) left undecided, %s' % (v, k))
+        if code == 0:
+            code = 3
     if validation_failures:
         for fam_, vp_, st_, fl_ in validation_failures[:5]:
             print('INCONCLUSIVE: model validation failed in family %s: a path that holds symbolically does not hold on the '
